@@ -7,8 +7,8 @@ os.makedirs(dst, exist_ok=True)
 for f in ("patch.diff", "demo.py"):
     shutil.copy(os.path.join(src, f), dst)
 meta = json.load(open(os.path.join(src, "meta.json")))
-meta["confirmed_by_me"] = ("applied to /repo with git apply; demo.py exits 0 on the unchanged tree and 1 with the change; "
-                           "then ./check <prop> run against the changed tree and the change reverted (tools/trymut.sh)")
+meta["confirmed_by_me"] = ("applied with git apply (to /repo, or to a scratch worktree the check is pointed at with SPARKX_REPO); demo.py exits 0 on the unchanged tree and 1 with the change; "
+                           "then ./check <prop> run against the changed tree and the change reverted (tools/trymut.sh / tools/trymut_wt.sh)")
 meta["check_result"] = caught
 json.dump(meta, open(os.path.join(dst, "meta.json"), "w"), indent=1)
 print("kept", dst)
